@@ -331,6 +331,7 @@ GP_SHAPES = {
     "struct-nested": "#[typeshare]\npub struct Wrap<U> { pub u: U }\n#[typeshare]\npub struct Holder<PLACEG> { pub page: Wrap<Vec<PLACEG>>, pub m: HashMap<String, Wrap<PLACEG>> }\n",
     "struct-two-params-unsorted": "#[typeshare]\npub struct Holder<PLACEG, A> { pub first: PLACEG, pub second: Vec<A>, pub m: HashMap<String, PLACEG> }\n",
     "struct-three-params-unsorted": "#[typeshare]\npub struct Holder<PLACEG, C, B> { pub first: Option<PLACEG>, pub second: Vec<B>, pub third: C }\n#[typeshare]\npub type Al<PLACEG, A> = Vec<PLACEG>;\n",
+    "alias-nested": "#[typeshare]\npub struct Wrap<U> { pub u: U }\n#[typeshare]\npub type Al<PLACEG> = Vec<Option<PLACEG>>;\n#[typeshare]\npub type Am<PLACEG> = HashMap<String, Wrap<PLACEG>>;\n",
     "tuple-variant-nested": "#[typeshare]\npub struct Wrap<U> { pub u: U }\n#[typeshare]\n#[serde(tag = \"t\", content = \"c\")]\npub enum Holder<PLACEG> { A, V(Wrap<Vec<PLACEG>>) }\n",
 }
 
